@@ -34,4 +34,14 @@ for d, _, fs in os.walk(add):
     for f in fs:
         if f.endswith(".go"):
             rep[os.path.join("/repo", os.path.relpath(os.path.join(d, f), add))] = os.path.join(d, f)
+# the same overlay plus the command: cmd/ugo/main.go instrumented (its main renamed) and the harness added to package main
+cmd = dict(rep)
+dst = os.path.join(out, "cmd__ugo__main.go")
+r = subprocess.run([os.path.join(root, "bin", "rewrite"), "-chans-main", "/repo/cmd/ugo/main.go", dst], capture_output=True, text=True)
+if r.returncode != 0:
+    sys.stderr.write(r.stderr)
+    sys.exit(2)
+cmd["/repo/cmd/ugo/main.go"] = dst
+cmd["/repo/cmd/ugo/zz_vsched_harness.go"] = os.path.join(root, "shim", "cmdharness", "harness.go")
+open(os.path.join(root, ".work", "schedcmd.json"), "w").write(json.dumps({"Replace": cmd}, indent=1))
 print(json.dumps({"Replace": rep}, indent=1))
